@@ -141,11 +141,11 @@ def make_volume(case):
             a = rng.integers(max(lo, 0), 5, size=shape).astype(dt)
         else:
             a = rng.integers(lo, hi, size=shape, endpoint=True).astype(dt)
-            if dt == np.uint8 and C == 1 and case["seed"] % 4 == 1 and X >= 3:
+            if dt == np.uint8 and C == 1 and case["seed"] % 2 == 1 and X >= 3:
                 # voxel values that spell a gzip / zlib magic number at the
                 # origin of the first chunk (they are ordinary grey values)
                 a[:3, 0, 0] = [[31, 139, 8], [120, 156, 0]][
-                    (case["seed"] // 4) % 2]
+                    (case["seed"] // 2) % 2]
     return np.asfortranarray(a)
 
 
